@@ -10,6 +10,7 @@ TRUSTED_COMMON = [
 # output lines per op of each Lean driver (used to map a differing output line back to its op)
 LINES_PER_OP = {
     "DbDriver": lambda op: 1 if op.get("op") in ("snap", "states") else 2,
+    "SchedDriver": lambda op: 1,
 }
 
 
@@ -36,7 +37,31 @@ def dbstream(profile, nq, nt, sections=None, replicas=False, length=60):
 
 RULE_DB = "seeded command sequences on the real DB state machine (drummer.NewDB), reports drawn from a random linear membership history per shard (any version a replica could have seen; stale, duplicated, reordered, partial, pending) plus a malformed stream (1 in 5 sequences); a sequence is non-trivial when it has >= 4 commands; distinct = distinct seeds; profile %s"
 
+ALLDB = ["res", "T", "D", "F", "defs", "kv", "img", "kill", "hosts", "Requests", "Outgoing", "info"]
+
+def schedstream(profile, nq, nt, modes, length=120):
+    return {"cmd": "scheddiff", "driver": "SchedDriver", "sections": ALLDB + ["sched:" + m for m in modes], "eval_re": r"^(op_sched)[:_]",
+            "args": {"quick": ["-n", str(nq), "-profile", profile, "-len", str(length)],
+                     "thorough": ["-n", str(nt), "-profile", profile, "-len", str(length * 2)]}}
+
+RULE_SCHED = "real scheduler (launch() / Drummer.maintainShards() through the verif hook, scripted random source, Go map orders read back and handed to the model) on contexts answered by the real DB; profiles: launch = definitions of 1..6 shards x 1..5 members, the full matrix of region specifications (absent, shorter, longer, over/under-subscribed, duplicate, unknown, count 2^63), fleets of 0..8 hosts with regions and liveness; repair = views built member by member (healthy / failed after silence / failed never seen / waiting; host live or not; log record or not; surplus or missing members), 1..4 shards of <=5 members on 4..7 hosts; general = random command sequences; evaluations = scheduling calls, non-trivial = calls that produced requests"
+
 CHECKS = {
+    "C08": {
+        "lean": ["DrummerVerif.Props.C08"],
+        "streams": [schedstream("launch", 400, 6000, ["launch"]), schedstream("general", 100, 1500, ["launch"])],
+        "rule": RULE_SCHED, "assumptions": DB_ASSUME + ["scripted random sources return what math/rand can return (Int() >= 0)"],
+    },
+    "C12": {
+        "lean": ["DrummerVerif.Props.C12"],
+        "streams": [schedstream("repair", 400, 6000, ["maintain"]), schedstream("general", 100, 1500, ["maintain"])],
+        "rule": RULE_SCHED, "assumptions": DB_ASSUME,
+    },
+    "C02": {
+        "lean": ["DrummerVerif.Props.C02"],
+        "streams": [schedstream("repair", 400, 6000, ["maintain"]), schedstream("general", 100, 1500, ["maintain"])],
+        "rule": RULE_SCHED, "assumptions": DB_ASSUME + ["fleet half of the loop model (dragonboat's ordered config change, start/restart rules) is an assumption validated by the agent harness"],
+    },
     "C13": {
         "lean": ["DrummerVerif.Props.C13"],
         "streams": [dbstream("c13", 250, 4000, ["res", "defs", "kv"]), dbstream("general", 150, 2000, ["res", "defs", "kv"])],
@@ -69,7 +94,8 @@ CHECKS = {
     },
     "C11": {
         "lean": ["DrummerVerif.Props.C11"],
-        "streams": [dbstream("c11", 250, 4000, ["res", "img", "kill"]), dbstream("general", 150, 2000, ["res", "img", "kill"])],
+        "streams": [dbstream("c11", 250, 4000, ["res", "img", "kill"]), dbstream("general", 150, 2000, ["res", "img", "kill"]),
+                    schedstream("general", 150, 2000, ["maintain"])],
         "rule": RULE_DB % "c11 (every second report of a non-member host carries a stray replica) and general",
         "assumptions": DB_ASSUME,
     },
